@@ -42,6 +42,7 @@ type c02ep struct {
 type c02flags struct {
 	dyn, res, pres, same bool
 	minfree, block, iw   int
+	aff                  bool // cookie affinity (session-cookie-name set); the dynamic update only looks at Preserve
 }
 
 func b2s(b bool) string {
@@ -52,7 +53,11 @@ func b2s(b bool) string {
 }
 
 func (f c02flags) String() string {
-	return fmt.Sprintf("dyn=%s,res=%s,pres=%s,same=%s,minfree=%d,block=%d,iw=%d", b2s(f.dyn), b2s(f.res), b2s(f.pres), b2s(f.same), f.minfree, f.block, f.iw)
+	s := fmt.Sprintf("dyn=%s,res=%s,pres=%s,same=%s,minfree=%d,block=%d,iw=%d", b2s(f.dyn), b2s(f.res), b2s(f.pres), b2s(f.same), f.minfree, f.block, f.iw)
+	if f.aff {
+		s += ",aff=1"
+	}
+	return s
 }
 
 func c02parseFlags(s string) c02flags {
@@ -70,6 +75,8 @@ func c02parseFlags(s string) c02flags {
 			f.res = n == 1
 		case "pres":
 			f.pres = n == 1
+		case "aff":
+			f.aff = n == 1
 		case "same":
 			f.same = n == 1
 		case "minfree":
@@ -217,6 +224,10 @@ func c02fill(b *hatypes.Backend, f c02flags, eps []c02ep) {
 		b.Resolver = "kube-dns"
 	}
 	b.Cookie.Preserve = f.pres
+	if f.aff {
+		b.Cookie.Name = "srv"
+		b.Cookie.Strategy = "insert"
+	}
 	b.Server.InitialWeight = f.iw
 	for _, e := range eps {
 		ep := b.AddEndpoint(e.ip, e.port, e.tref)
@@ -350,7 +361,7 @@ func c02script(r *gen.Rng, n int) []string {
 func c02random(c *ctx, prop string, r *gen.Rng, n int) {
 	pool := []string{"10.0.0.1:8080", "10.0.0.2:8080", "10.0.0.3:8080", "10.0.0.4:8080", "10.0.0.1:9090", "10.0.0.5:8080", "10.0.0.6:8080"}
 	for i := 0; i < n; i++ {
-		f := c02flags{dyn: !r.Chance(1, 10), res: r.Chance(1, 15), pres: r.Chance(1, 6), same: !r.Chance(1, 12),
+		f := c02flags{aff: r.Chance(1, 4), dyn: !r.Chance(1, 10), res: r.Chance(1, 15), pres: r.Chance(1, 6), same: !r.Chance(1, 12),
 			minfree: r.Range(0, 6), block: r.Range(0, 8), iw: gen.Pick(r, []int{1, 1, 1, 100, 128})}
 		naming := r.Intn(3)
 		dup := r.Chance(1, 12)
